@@ -17,7 +17,7 @@ RULE = ("Hypothesis-generated simple loop-free graphs built as unions of planted
         "predicate against nx.enumerate_all_cliques. Non-trivial = graph contains two triangles sharing an edge or a "
         "clique of size >= 4; distinct = canonical JSON")
 ASSUMPTIONS = ["node ids are non-negative ints (labels embed the member list textually)"]
-BUDGET = {"quick": (16, 250), "thorough": (16, 3000)}
+BUDGET = {"quick": (16, 250), "thorough": (16, 8000)}
 LABEL = re.compile(r"^(\d+)-(\[.*\])-(\d+)$")
 
 
